@@ -252,6 +252,9 @@ def run(ctx):
     r4(ctx)
     r5(ctx)
     r6(ctx)
+    from . import C03
+    C03.r6(ctx, ops=("hold", "release"), R="C08-R8")
+    ctx.floor("C08-R8", 14)
     C02.r4(ctx)   # R7: a released batch of `capacity` data segments + FIN fits the receive queue
 
 
